@@ -885,7 +885,9 @@ def search_eval(run: Run, rt):
 
 
 VALUE_CASES = [('12', 12), (' 12 ', 12), ('-7', -7), ('1.5', 1.5), ('1,5', 1.5), ('-0.25', -0.25), ('1e3', 1000.0), ('007', 7), ('0', 0),
-               ('12.0', 12.0), ('abc', 'error'), ('', 'error'), ('12abc', 'error'), ('1.2.3', 'error')]
+               ('12.0', 12.0), ('abc', 'error'), ('', 'error'), ('12abc', 'error'), ('1.2.3', 'error'),
+               # whole numbers beyond 2**53 are exact as Python integers: the text decides, not the nearest double
+               ('9007199254740993', 9007199254740993), ('12345678901234567', 12345678901234567), ('-9007199254740993', -9007199254740993)]
 
 
 def search_metachars_eval(run: Run, rt):
